@@ -62,11 +62,13 @@ def build_fa(spec):
     for s, a, t in hist.get("extra", []):
         fa.add_transition(State(s), lab(a), State(t))
     _poke(fa, spec)
+    # after the first round of queries epsilon edits may use the documented string spellings instead of the Epsilon object
+    lab2 = (lambda a: hist["eps_str"] if a is None else Symbol(a)) if hist.get("eps_str") else lab
     for s, a, t in hist.get("extra", []):
         if [s, a, t] not in spec["trans"][:k]:
-            fa.remove_transition(State(s), lab(a), State(t))
+            fa.remove_transition(State(s), lab2(a), State(t))
     for s, a, t in spec["trans"][k:]:
-        fa.add_transition(State(s), lab(a), State(t))
+        fa.add_transition(State(s), lab2(a), State(t))
     if hist.get("poke_twice"):
         _poke(fa, spec)
     return fa
@@ -204,11 +206,21 @@ def rand_fa(rng, kind=None, profile=None, names="plain", max_states=5, max_syms=
         cand = [s_, a_, t_] = [rng.choice(states), rng.choice(syms + ([None] if kind == "enfa" else [])), rng.choice(states)]
         extra = [cand] if (kind != "dfa" and cand not in tl) else []
         history = {"split": rng.randint(0, len(tl)), "extra": extra, "poke_twice": rng.random() < 0.3}
+        if kind == "enfa" and rng.random() < 0.5:
+            history["eps_str"] = rng.choice(["epsilon", "\u025b"])
+    if profile == "epsonly" and kind == "enfa":       # no input symbol at all: every transition is an epsilon move
+        tl = [t for t in tl if t[1] is None] or [[states[0], None, states[-1]]]
+        if rng.random() < 0.7 and n >= 2:          # acceptance of the empty word goes through a chain of epsilon moves
+            tl = sorted({tuple(t) for t in tl} | {(states[i], None, states[i + 1]) for i in range(n - 1)}, key=vkey)
+            tl = [list(t) for t in tl]
+            starts, finals = [states[0]], [states[-1]]
+        syms, extra_sym = [], []
+        history = None
     if history:
         return {"kind": kind, "states": states, "symbols": syms + extra_sym, "trans": tl,
                 "starts": starts, "finals": finals, "profile": profile, "names": names, "history": history}
     return {"kind": kind, "states": states, "symbols": syms + extra_sym,
-            "trans": sorted([list(t) for t in trans], key=vkey),
+            "trans": sorted(tl, key=vkey),
             "starts": starts, "finals": finals, "profile": profile, "names": names}
 
 
